@@ -571,6 +571,33 @@ def run(chk, prog):
             chk.finding("R5-blank", P + n, "rule-without-ws", n, rule_fns[n].file,
                         "expression rule %s does not skip leading blanks" % n)
     chk.floor("R5-blank", ntok[0], 40, "token parsers in expression rules")
+    # R5-skip: `blank` is the only skipper in the expression grammar.  A bare whitespace parser there either demands whitespace
+    # (multispace1 after a keyword) or skips whitespace but not comments (multispace0 around the terminator).
+    nskip = 0
+    for n in sorted(expr_rules - LEXICAL):
+        for b_ in _builtins(pegs[n]):
+            m = re.search(r"(multispace[01]|space[01]|line_ending|not_line_ending|newline|crlf|tab)$", b_[1])
+            if not m:
+                continue
+            nskip += 1
+            chk.instance("R5-skip", rule_fns[n].file, "rule %s uses the raw whitespace parser %s" % (n, m.group(1)), False)
+            chk.finding("R5-skip", P + n, "raw-whitespace", m.group(1), "%s:%d" % (rule_fns[n].file, rule_fns[n].line),
+                        "expression rule %s uses %s instead of the blank skipper: at that token boundary whitespace is %s, so "
+                        "blank/comment filler between two tokens changes whether the text parses"
+                        % (n, m.group(1), "required" if m.group(1).endswith("1") or "line" in m.group(1) else "skipped but a comment is not"))
+        chk.instance("R5-skip", rule_fns[n].file, "rule %s skips filler only through blank" % n, True, nontrivial=False)
+    # R5-comment: a comment may be empty (`#` directly followed by the line end, `/**/`)
+    for cn in ("eol_comment", "inline_comment"):
+        if cn not in rule_fns:
+            chk.anchor_missing("R5-comment", "milu::parser::" + cn)
+            continue
+        tree = et.build_local(rule_fns[cn], 0)
+        need1 = _need1(tree)
+        chk.instance("R5-comment", rule_fns[cn].file, "%s accepts an empty comment body" % cn, not need1)
+        if need1:
+            chk.finding("R5-comment", P + cn, "nonempty-body", need1[0][1], "%s:%d" % (rule_fns[cn].file, rule_fns[cn].line),
+                        "%s matches its body with %s, which needs at least one character: an empty comment between two tokens is a syntax error"
+                        % (cn, need1[0][1]))
     # blank itself covers whitespace and both comment forms
     if "blank" in pegs:
         br = set(refs(pegs["blank"])) | set(x[1] for x in _builtins(pegs["blank"]))
@@ -591,6 +618,21 @@ def run(chk, prog):
         chk.instance("R5-blank", wsf.file, "ws(f) = preceded(blank, f)", okws)
         if not okws:
             chk.finding("R5-blank", P + "ws", "ws-shape", "", wsf.file, "ws() is no longer preceded(blank, f)")
+
+
+def _need1(node, out=None):
+    """combinators in a comment body that need at least one character, unless wrapped in opt()/many0()"""
+    out = [] if out is None else out
+    if node[0] in ("call", "fn"):
+        if re.search(r"combinator::opt$|multi::many0$", node[1]):
+            return out
+        if re.search(r"(is_not|take_while1|take_till1|many1|none_of|one_of|anychar)$", node[1]):
+            out.append(node)
+    kids = node[3] if node[0] == "call" else node[1] if node[0] in ("tuple", "array") else []
+    for k in kids:
+        if isinstance(k, tuple):
+            _need1(k, out)
+    return out
 
 
 def _builtins(p, out=None):
